@@ -397,8 +397,8 @@ pub fn eval(e: &IExpr, refs: &[V]) -> Result<V, ()> {
 pub fn eval_untyped(e: &IExpr, refs: &[Option<i64>]) -> Option<i64> {
     Some(match e {
         IExpr::Lit { v, .. } => *v as i64,
-        // a character constant counts as its (unsigned) byte
-        IExpr::Chr(c) => *c as i64,
+        // character constants do not take part in arithmetic there
+        IExpr::Chr(_) => return None,
         IExpr::Ref(i) => {
             if refs.is_empty() {
                 return None;
@@ -556,6 +556,20 @@ fn render_atom(e: &IExpr, names: &[String], cpp: bool) -> String {
         // `- -1` and `-(-1)`: never let two signs touch
         IExpr::Un(..) => format!("({})", render(e, names, cpp)),
         _ => render(e, names, cpp),
+    }
+}
+
+/// Does the expression itself contain an operand of unsigned type (a literal typed unsigned,
+/// a cast to an unsigned type, sizeof)? References are the caller's business.
+pub fn has_unsigned_operand(e: &IExpr) -> bool {
+    match e {
+        IExpr::Lit { v, u, l, radix, .. } => lit_type(*v, *u, *l, *radix).map(|t| !t.signed).unwrap_or(true),
+        IExpr::Chr(_) | IExpr::Ref(_) => false,
+        IExpr::SizeofTy(_) => true,
+        IExpr::Cast(t, a) => !t.shape().1 || has_unsigned_operand(a),
+        IExpr::Un(_, a) => has_unsigned_operand(a),
+        IExpr::Bin(_, a, b) => has_unsigned_operand(a) || has_unsigned_operand(b),
+        IExpr::Cond(c, a, b) => has_unsigned_operand(c) || has_unsigned_operand(a) || has_unsigned_operand(b),
     }
 }
 
